@@ -638,7 +638,7 @@ Lemma step_scalar : forall k e loc m old args,
       if kind_key k old =? kind_key k st then [] else [undo_event loc (kind_arg k) old st].
 Proof.
   intros k e loc m old args Hk Henv Hold Hc Hloc.
-  inversion Hc; subst.
+  inversion Hc; subst; try (destruct Hk as [Hk|[Hk|[Hk|Hk]]]; discriminate).
   - (* query *)
     exists old. destruct Hk as [Hk|[Hk|[Hk|Hk]]]; subst k; eexists;
       (split; [reflexivity|]); (split; [exact Hold|]);
@@ -772,4 +772,146 @@ Proof.
   split; [intros lo hi E1 E2; inversion E1; inversion E2; subst; cbn; lia|].
   split; [reflexivity|]. split; [reflexivity|].
   eexists. eexists. split; [reflexivity|]. split; reflexivity.
+Qed.
+
+(* ---------------------------------- histories: the range is an invariant *)
+Definition elem_cb (k : kind) : option (penv -> str -> Z -> list arg -> option (Z * list out)) :=
+  match k with
+  | KP => Some rParamCb | KI => Some rParamICb | KF | KAF => Some rParamFCb
+  | KO | KAO => Some rOptionCb | KAI => Some rArrayICb_elem
+  | _ => None
+  end.
+
+Lemma symbol_index_in : forall mp s k, symbol_index mp s = Some k -> In (k, s) mp.
+Proof.
+  intros mp s k H. apply symbol_index_first in H. destruct H as (pre & post & E & _).
+  subst mp. apply in_or_app. right. left. reflexivity.
+Qed.
+
+Lemma symbol_in_range : forall e s k,
+  map_in_range e -> symbol_index (p_map e) s = Some k -> in_rangeK zkey (p_min e) (p_max e) k.
+Proof.
+  intros e s k Hm H. apply symbol_index_in in H. unfold map_in_range in Hm.
+  rewrite Forall_forall in Hm. exact (Hm (k, s) H).
+Qed.
+
+Lemma numeric_set_inv : forall e loc old key mka mkb v r st o,
+  numeric_set e loc old key mka mkb v r -> bounds_ordered key (p_min e) (p_max e) ->
+  r = Some (st, o) ->
+  st = clampK key (p_min e) (p_max e) v /\ in_rangeK key (p_min e) (p_max e) st.
+Proof.
+  intros e loc old key mka mkb v r st o H Hord E. split.
+  - destruct (numeric_clamp _ _ _ _ _ _ _ _ H) as (o' & E'). rewrite E in E'. inversion E'. reflexivity.
+  - exact (numeric_in_range _ _ _ _ _ _ _ _ _ _ H Hord E).
+Qed.
+
+Lemma elem_inv : forall k e cb loc old args st o,
+  elem_cb k = Some cb -> env_ok e k ->
+  bounds_ordered (kind_key k) (p_min e) (p_max e) -> map_in_range e ->
+  conforming e k args ->
+  val_ok k old -> in_rangeK (kind_key k) (p_min e) (p_max e) old ->
+  cb e loc old args = Some (st, o) ->
+  val_ok k st /\ in_rangeK (kind_key k) (p_min e) (p_max e) st.
+Proof.
+  intros k e cb loc old args st o Hcb Henv Hord Hmap Hc Hv Hin H.
+  inversion Hc; subst.
+  - (* query *)
+    destruct k; try discriminate; inversion Hcb; subst cb; cbn in H; inversion H; subst;
+      split; assumption.
+  - inversion Hcb; subst cb. destruct Henv as [Hmn Hmx].
+    destruct (numeric_set_inv _ _ _ _ _ _ _ _ _ _ (NS_param e loc old v H0 Hmn Hmx) Hord H) as [_ R].
+    split; [exact I|exact R].
+  - inversion Hcb; subst cb.
+    destruct (numeric_set_inv _ _ _ _ _ _ _ _ _ _ (NS_paramI e loc old v) Hord H) as [_ R].
+    split; [exact I|exact R].
+  - inversion Hcb; subst cb. destruct Henv as [Hmn Hmx].
+    destruct (numeric_set_inv _ _ _ _ _ _ _ _ _ _ (NS_paramF e loc old b Hv H0 Hmn Hmx) Hord H) as [S R].
+    split; [|exact R]. subst st. apply (good_clampK Z fkey nonan); assumption.
+  - inversion Hcb; subst cb.
+    destruct (numeric_set_inv _ _ _ _ _ _ _ _ _ _ (NS_option_i e loc old v) Hord H) as [_ R].
+    split; [exact I|exact R].
+  - inversion Hcb; subst cb.
+    destruct (numeric_set_inv _ _ _ _ _ _ _ _ _ _ (NS_option_c e loc old v) Hord H) as [_ R].
+    split; [exact I|exact R].
+  - inversion Hcb; subst cb.
+    destruct (rOptionCb_set_symbol e loc old s k0 H0) as ([st' o'] & E & S1 & _).
+    rewrite H in E. inversion E; subst. cbn [fst] in S1. unfold clampK in S1. subst st'.
+    split; [exact I|]. exact (symbol_in_range e s k0 Hmap H0).
+  - inversion Hcb; subst cb. destruct Henv as [Hmn Hmx].
+    destruct (numeric_set_inv _ _ _ _ _ _ _ _ _ _ (NS_arrayI e loc old v H0 Hmn Hmx) Hord H) as [_ R].
+    split; [exact I|exact R].
+  - inversion Hcb; subst cb. destruct Henv as [Hmn Hmx].
+    destruct (numeric_set_inv _ _ _ _ _ _ _ _ _ _ (NS_paramF e loc old b Hv H0 Hmn Hmx) Hord H) as [S R].
+    split; [|exact R]. subst st. apply (good_clampK Z fkey nonan); assumption.
+  - inversion Hcb; subst cb.
+    destruct (numeric_set_inv _ _ _ _ _ _ _ _ _ _ (NS_option_i e loc old v) Hord H) as [_ R].
+    split; [exact I|exact R].
+  - inversion Hcb; subst cb.
+    destruct (numeric_set_inv _ _ _ _ _ _ _ _ _ _ (NS_option_c e loc old v) Hord H) as [_ R].
+    split; [exact I|exact R].
+  - inversion Hcb; subst cb.
+    destruct (rOptionCb_set_symbol e loc old s k0 H0) as ([st' o'] & E & S1 & _).
+    rewrite H in E. inversion E; subst. cbn [fst] in S1. unfold clampK in S1. subst st'.
+    split; [exact I|]. exact (symbol_in_range e s k0 Hmap H0).
+Qed.
+
+Lemma Forall_upd : forall A (P : A -> Prop) l n v, Forall P l -> P v -> Forall P (upd l n v).
+Proof.
+  intros A P l. induction l as [|x r IH]; intros n v Hl Hv; [constructor|].
+  inversion Hl; subst. destruct n; cbn; constructor; try assumption. apply IH; assumption.
+Qed.
+
+Lemma Forall_nth_error : forall A (P : A -> Prop) l n x, Forall P l -> nth_error l n = Some x -> P x.
+Proof.
+  intros A P l n x Hl H. rewrite Forall_forall in Hl. apply Hl. exact (nth_error_In l n H).
+Qed.
+
+Lemma step_inv : forall k e loc m st args st' o,
+  numeric_kind k -> env_ok e k ->
+  bounds_ordered (kind_key k) (p_min e) (p_max e) -> map_in_range e ->
+  conforming e k args -> stored_ok e k st ->
+  step k e loc m st args = Some (st', o) -> stored_ok e k st'.
+Proof.
+  intros k e loc m st args st' o Hk Henv Hord Hmap Hc Hst H.
+  assert (SC : forall cb, elem_cb k = Some cb ->
+               scalar st (fun v => cb e loc v args) = Some (st', o) -> stored_ok e k st').
+  { intros cb Hcb HS. unfold scalar in HS.
+    destruct st as [|v [|w r]]; try discriminate.
+    destruct (cb e loc v args) as [[v' o']|] eqn:E; [|discriminate]. inversion HS; subst.
+    inversion Hst as [|? ? [Hv Hin] _]; subst.
+    constructor; [|constructor].
+    exact (elem_inv k e cb loc v args v' o Hcb Henv Hord Hmap Hc Hv Hin E). }
+  assert (AR : forall cb, elem_cb k = Some cb ->
+               at_idx st (boils_idx e m) (fun cur => cb e loc cur args) = Some (st', o) ->
+               stored_ok e k st').
+  { intros cb Hcb HA. unfold at_idx in HA.
+    destruct (nth_error st (Z.to_nat (boils_idx e m))) as [cur|] eqn:En; [|discriminate].
+    destruct (cb e loc cur args) as [[v' o']|] eqn:E; [|discriminate]. inversion HA; subst.
+    destruct (Forall_nth_error _ _ _ _ _ Hst En) as [Hv Hin].
+    apply Forall_upd; [exact Hst|].
+    exact (elem_inv k e cb loc cur args v' o Hcb Henv Hord Hmap Hc Hv Hin E). }
+  destruct Hk as [Hk|[Hk|[Hk|[Hk|[Hk|[Hk|Hk]]]]]]; subst k; cbn [step] in H.
+  - exact (SC _ eq_refl H).
+  - exact (SC _ eq_refl H).
+  - exact (SC _ eq_refl H).
+  - exact (SC _ eq_refl H).
+  - exact (AR _ eq_refl H).
+  - exact (AR _ eq_refl H).
+  - exact (AR _ eq_refl H).
+Qed.
+
+Lemma run_inv : forall k e ops st st' outs,
+  numeric_kind k -> env_ok e k ->
+  bounds_ordered (kind_key k) (p_min e) (p_max e) -> map_in_range e ->
+  Forall (fun o => conforming e k (op_args o)) ops -> stored_ok e k st ->
+  run k e ops st = Some (st', outs) -> stored_ok e k st'.
+Proof.
+  intros k e ops. induction ops as [|o r IH]; intros st st' outs Hk Henv Hord Hmap Hops Hst H.
+  - cbn in H. inversion H; subst. exact Hst.
+  - cbn [run] in H. inversion Hops as [|? ? Hc Hr]; subst.
+    destruct (step k e (op_loc o) (op_m o) st (op_args o)) as [[st1 o1]|] eqn:E1; [|discriminate].
+    destruct (run k e r st1) as [[st2 o2]|] eqn:E2; [|discriminate].
+    inversion H; subst.
+    apply (IH st1 st' o2 Hk Henv Hord Hmap Hr); [|exact E2].
+    exact (step_inv k e _ _ st _ st1 o1 Hk Henv Hord Hmap Hc Hst E1).
 Qed.
